@@ -249,7 +249,7 @@ SHAPE_BYTES = {0: 8, 1: 13, 2: 9, 3: 264}
 SHAPE_LAST = {0: 8, 1: 1, 2: 8, 3: 8}     # size of the component popped first
 
 
-def gen_schedule(rng, stream, gc, ncos, nops, maxchain, maxdepth):
+def gen_schedule(rng, stream, gc, ncos, nops, maxchain, maxdepth, psub=0.6):
     """Generates one schedule by simulating the reference semantics.  stream:
     'tree'    valid nested resume/yield trees with pending storage at every switch;
     'invalid' the same plus every invalid transition (and, rarely, the documented panics);
@@ -377,6 +377,13 @@ def gen_schedule(rng, stream, gc, ncos, nops, maxchain, maxdepth):
             elif c == 13 and susp:
                 k = rng.choice(susp)
                 emit("status %d" % k)
+            # after the invalid transition: carry on from deeper frames that hold fresh coroutines only in
+            # their locals, with collections in between (the failed call must have left nothing behind)
+            if not ref.done and rng.random() < psub:
+                emit("sub %d %d" % (rng.randrange(0, 7), rng.randrange(1, 7)))
+                for k in sorted(ref.slots)[:6]:
+                    if rng.random() < 0.5:
+                        emit("status %d" % k)
             continue
         # ---------------- rollback of multi-value pushes with values pending (main and coroutines)
         if (invalid and r < 0.34) or (stream == "rollback" and r < 0.5):
@@ -472,8 +479,10 @@ def gen_schedule(rng, stream, gc, ncos, nops, maxchain, maxdepth):
             c = [k for k in susp + dead]
             if c:
                 emit(rng.choice(["destroy %d", "destroy %d", "close %d"]) % rng.choice(c))
-        else:
+        elif r < 0.99:
             emit("gc")
+        else:
+            emit("sub %d %d" % (rng.randrange(0, 7), rng.randrange(1, 7)))
     if not ref.done:
         # let the typed bodies that are still active finish without a panic
         for k in list(ref.active):
@@ -668,8 +677,8 @@ def correspond(ctx):
                 sc = [l.strip() for l in vlib.read(os.path.join(cdir, f)).split("\n") if l.strip() and not l.startswith("#")]
                 nogc_only = any(l.startswith("# nogc-only") for l in vlib.read(os.path.join(cdir, f)).split("\n"))
                 corpus.append(("corpus/" + f, sc, nogc_only))
-    n_tree = ctx.scale(160, 8000)
-    n_inv = ctx.scale(110, 6000)
+    n_tree = ctx.scale(160, 6000)
+    n_inv = ctx.scale(110, 5000)
     sets = {}
     dist = {"streams": {}, "commands": {}, "max_chain": 0, "max_frame_depth": 0}
     for gcmode in (True, False):
@@ -681,7 +690,8 @@ def correspond(ctx):
                 big = rng.random() < 0.15
                 ncos = rng.choice([2, 3, 5, 8]) if not big else rng.choice([12, 24])
                 nops = rng.choice([20, 40, 80]) if not big else rng.choice([150, 300])
-                sc, st, ref = gen_schedule(rng, stream, gcmode, ncos, nops, maxchain=8 if not big else 24, maxdepth=8)
+                sc, st, ref = gen_schedule(rng, stream, gcmode, ncos, nops, maxchain=8 if not big else 24, maxdepth=8,
+                                           psub=ctx.scale(0.6, 0.2))
                 items.append(("%s-%d" % (stream, i), sc))
                 dist["streams"][stream] = dist["streams"].get(stream, 0) + 1
                 dist["max_chain"] = max(dist["max_chain"], st.pop("_chain", 0))
